@@ -24,7 +24,7 @@ TOTALS = ["eager", "lazy", "reflect", "normalize", "sequential", "moment_matchin
 ALPHABET = TOTALS + ["memoize", "memoize_shared", "Memoize_lazy", "user", "user2", "tape", "tape_shared", "montecarlo", "montecarlo_shared"]
 QUICK_ALPHABET = ["eager", "lazy", "normalize", "sequential", "memoize", "memoize_shared", "Memoize_lazy", "user", "tape", "tape_shared", "montecarlo_shared", "reflect"]
 WORKS = ["subs", "reduce", "optimizer", "reinterpret", "adjoint", "einsum", "inner_memoize", "sample", "lambda", "user_term", "mc_integrate", "affine", "compile", "sum_product", "gaussian"]
-EXC_TYPES = ["MemoryError", "RecursionError", "FloatingPointError", "NotImplementedError", "ValueError"]
+EXC_TYPES = ["MemoryError", "RecursionError", "FloatingPointError", "NotImplementedError", "ValueError", "KeyboardInterrupt", "CancelledError"]
 
 ###############################################################################
 # planning (runner side, no funsor needed)
@@ -566,7 +566,7 @@ class Run:
                 if item.get("catch"):
                     try:
                         self.exec_block(item, depth)
-                    except Exception as e:  # noqa
+                    except BaseException as e:  # noqa
                         if not self.env.seams.is_injected(e):
                             raise
                         self.check_stack("after catching %s outside block %s" % (type(e).__name__, item["k"]))
@@ -585,8 +585,8 @@ class Run:
                     self.env.stats["work_ok"] += 1
                 except Violation:
                     raise
-                except Exception as e:  # noqa
-                    if self.env.seams.is_injected(e):
+                except BaseException as e:  # noqa
+                    if self.env.seams.is_injected(e) or not isinstance(e, Exception):
                         raise
                     self.env.stats["work_errors"] += 1
                 self.check_stack("after work %s@%d" % (name, self.pos))
@@ -687,7 +687,7 @@ class Run:
                 self.exec_items(self.forest, 1)
             except Violation:
                 raise
-            except Exception as e:  # noqa
+            except BaseException as e:  # noqa
                 if not env.seams.is_injected(e):
                     raise
             self.model = []
